@@ -675,6 +675,8 @@ func runNodeCase(c *Ctx, mode string, seed int64, k int) {
 		genCaseCrash(c, mode)
 	case "pool":
 		genCasePool(c, mode)
+	case "conc":
+		genCaseConc(c, mode)
 	default:
 		genCaseTree(c, mode)
 	}
